@@ -113,8 +113,56 @@ def build(ctx):
                              z3.Or(str_expr(data) != fmt.e, z3.BoolVal(not (isinstance(tgt, Opaque) and tgt.ident == 'F'))), [], replay_cli(ctx, 'files'), twin=False)
                 if has_diff is not None:
                     ctx.prop('FilesEmitter/p%d/never-reports-has_diff' % i, o.state.pc + [ret_ok], has_diff, [], replay_cli(ctx, 'files'), twin=False)
+            if ename == 'FilesWithBackupEmitter':
+                # files mode with --backup touches the file system only if the formatted text differs (what it does then is C20's subject)
+                ctx.prop('FilesWithBackupEmitter/p%d/touches-the-file-system-only-if-texts-differ' % i, o.state.pc, z3.And(z3.BoolVal(bool(fs_calls)), z3.Not(differ)), [],
+                         replay_cli(ctx, 'backup-unchanged'), twin=False, meta={'fs_calls': [t[1] for t in fs_calls]})
     lib.stubs = [x for x in lib.stubs if 'make_diff' not in x[2]]
     ctx.cover('cover/FilesEmitter-has-a-successful-path', [z3.Or(ok_paths)])
+
+    # ---------------------------------------------------------------- C'. the per-file result is accumulated: has_diff of the report only ever goes up
+    hff = lib.find('handle_formatted_file', self_ty='Session', file='src/formatting.rs', trait='FormatHandler')
+    was_lenient = lib.lenient
+    lib.lenient = True
+    lib.inline_only = [re.compile(r'handle_formatted_file$'), re.compile(r'FormatReport::add_diff$|add_diff$'), re.compile(r'src/lib\.rs.*add_diff')]
+    er_has_diff = z3.Bool('emitted.has_diff')
+    wf_ok = z3.Bool('write_file.ok')
+
+    def write_file_stub(eng_, st_, args, ci):
+        return Enum('Result', z3.If(wf_ok, z3.BitVecVal(0, 64), z3.BitVecVal(1, 64)), {0: Tup([Tup([er_has_diff], 'EmitterResult')]), 1: Tup([Opaque('io::Error', 'wf')])})
+    lib.stub(r'source_file::write_file::<|(^|::)write_file::<', write_file_stub, 'source_file::write_file = Ok(EmitterResult { has_diff }) or Err(io), both symbolic')
+    st = State()
+    re_fields = [n for n, _ in lib.src.struct_fields('ReportedErrors', 'src/formatting.rs')]
+    before = [z3.Bool('report.%s' % n) for n in re_fields]
+    internal = Tup([Opaque('FormatErrorMap', 'm'), Tup(list(before), 'ReportedErrors')])
+    cell = lib.ref_to(st, Tup([internal], 'RefCell'), True, 'cell')
+    report = lib.ref_to(st, Tup([cell, Opaque('Vec', 'nfr')], 'FormatReport'), True, 'report')
+    sess = Opaque('Session', 'sess')
+    sfields = [n for n, _ in lib.src.struct_fields('Session', 'src/lib.rs')]
+    st.notes[('lazy', sess.ident, sfields.index('out'))] = Enum('Option', 1, {1: Tup([Opaque('&mut T', 'out')])})
+    sref = lib.ref_to(st, sess, True, 'session')
+    try:
+        outs = ctx.check_outcomes(lib.run(hff, [sref, lib.fresh_of_type(st, '&ParseSess', 'psess'), Enum('FileName', 1, {}), lib.fresh_str('result'), report], st), 'handle_formatted_file')
+    except Unsupported as e:
+        raise Inconclusive('handle_formatted_file not encodable: %s' % e)
+    hd = re_fields.index('has_diff')
+    nret = 0
+    for i, o in enumerate(outs):
+        if o.kind != 'ret':
+            continue
+        nret += 1
+        after = lib.read_ref(o.state, cell).items[0].items[1].items
+        okv = o.value.discr == 0
+        if not lib.feasible(o.state, okv):
+            continue            # the Err(io) return: the report is whatever it was
+        ctx.prop('handle_formatted_file/p%d/has_diff-accumulates(or)' % i, o.state.pc + [okv], after[hd] != z3.Or(before[hd], er_has_diff), before + [er_has_diff, wf_ok], replay_cli(ctx, 'module-tree'))
+        for j, n in enumerate(re_fields):
+            if j != hd:
+                ctx.prop('handle_formatted_file/p%d/%s-untouched' % (i, n), o.state.pc + [okv], after[j] != before[j], before + [er_has_diff], replay_cli(ctx, 'module-tree'), twin=False)
+    if not nret:
+        raise Inconclusive('handle_formatted_file has no returning path')
+    lib.stubs = [x for x in lib.stubs if 'write_file' not in x[2]]
+    lib.lenient = was_lenient
 
     # ---------------------------------------------------------------- D. create_emitter: a writing emitter only for EmitMode::Files
     lib.inline_only = [re.compile(r'src/config/config_type\.rs'), re.compile(r'^Config::'), re.compile(r'src/emitter'), re.compile(r'create_emitter')]
@@ -378,6 +426,48 @@ def cli_matrix():
     return findings, inline
 
 
+def tree_matrix():
+    """--check over a root file with out-of-line modules: exit 1 iff some file of the tree would be rewritten, whatever its position"""
+    bins = ensure_bins()
+    rf = os.path.join(bins, 'rustfmt')
+    d = os.path.join(BUILD, 'scratch', 'c06t-%d' % os.getpid())
+    out = []
+    bad, good = 'pub fn   f( ) { }\n', 'pub fn f() {}\n'
+    for which in ('a', 'lib', 'z', None):
+        shutil.rmtree(d, ignore_errors=True)
+        os.makedirs(d)
+        open(os.path.join(d, 'lib.rs'), 'w').write('mod a;\nmod z;\n' + (bad if which == 'lib' else good))
+        open(os.path.join(d, 'a.rs'), 'w').write(bad if which == 'a' else good)
+        open(os.path.join(d, 'z.rs'), 'w').write(bad if which == 'z' else good)
+        r = subprocess.run([rf, '--check', 'lib.rs'], capture_output=True, text=True, env=run_env(), timeout=60, cwd=d)
+        want = 0 if which is None else 1
+        if r.returncode != want:
+            out.append('--check lib.rs with the unformatted file = %s: exit %d, expected %d' % (which, r.returncode, want))
+    shutil.rmtree(d, ignore_errors=True)
+    return out
+
+
+def backup_unchanged():
+    bins = ensure_bins()
+    rf = os.path.join(bins, 'rustfmt')
+    d = os.path.join(BUILD, 'scratch', 'c06b-%d' % os.getpid())
+    shutil.rmtree(d, ignore_errors=True)
+    os.makedirs(d)
+    p = os.path.join(d, 'good.rs')
+    open(p, 'w').write('fn main() {}\n')
+    os.utime(p, (1000000000, 1000000000))
+    st0 = os.stat(p)
+    subprocess.run([rf, '--backup', 'good.rs'], capture_output=True, text=True, env=run_env(), timeout=60, cwd=d)
+    st1 = os.stat(p)
+    out = []
+    if (st0.st_mtime_ns, st0.st_ino) != (st1.st_mtime_ns, st1.st_ino):
+        out.append('--backup touched an already formatted file (mtime/inode changed)')
+    if os.path.exists(os.path.join(d, 'good.bk')):
+        out.append('--backup left a .bk for an already formatted file')
+    shutil.rmtree(d, ignore_errors=True)
+    return out
+
+
 def stdin_matrix():
     """--check on standard input: exit 1 exactly when the text would be changed"""
     bins = ensure_bins()
@@ -396,6 +486,12 @@ def stdin_matrix():
 
 def replay_cli(ctx, what):
     def replay(model, r):
+        if what == 'module-tree':
+            f = tree_matrix()
+            return {'reproduced': bool(f), 'detail': f[:4]}
+        if what == 'backup-unchanged':
+            f = backup_unchanged()
+            return {'reproduced': bool(f), 'detail': f[:4]}
         if what == 'stdin':
             f = stdin_matrix()
             key = r.ob.meta.get('key')
